@@ -71,6 +71,9 @@ pub fn run(args: &Args) {
         let ex = run_all(&mut rep, name, &dags, oracles, true, |c, m| (c.ends_with("-outcome") && m.contains("ParallelFinalize")) || c == "failed-op-changed-state", |d, f| singleton_histories(d, &cuts, act, f));
         families.push(json!({"family": name, "universes": dags.len(), "executions": ex}));
     }
+    families.extend(crate::props::spill::run_finalize_families(&mut rep, args.tier == Tier::Thorough));
+    rep.require_nonzero("comb_runs_that_spilled");
+    rep.require_nonzero("comb_parallel_refused");
     rep.require_nonzero("parallel_finalize_add");
     rep.require_nonzero("parallel_finalize_commit");
     finish(rep, families)
